@@ -119,6 +119,10 @@ def expand_literal(c, pol):
         return out
     if c[0] == "not":
         return expand_literal(c[1], not pol)
+    if c[0] == "sel":
+        # the result of an inlined helper is one of its alternatives (exhaustive, each with its own path condition): the test holds exactly on
+        # the chosen ones and fails exactly on the others
+        return [conj for i, (conj, _) in enumerate(c[1]) if (i in c[2]) == pol]
     if c[0] == "cmp" and not pol and c[1] in NEGATE:
         return [((("cmp", NEGATE[c[1]], c[2], c[3]), True),)]  # canonical form: comparisons are stored positively
     return [((c, pol),)]
@@ -139,6 +143,11 @@ def dnf_and(dnf, c, pol):
             new = conj
             dead = False
             for lit in lits:
+                if is_const(lit[0]) and isinstance(lit[0][1], bool):
+                    if lit[0][1] != lit[1]:
+                        dead = True
+                        break
+                    continue
                 if neg_lit(lit) in new or (lit[0], not lit[1]) in new:
                     dead = True
                     break
@@ -242,6 +251,11 @@ class SymEval:
         self.final: State | None = None
         self._snapshots: dict = {}  # try id -> list of env snapshots taken before each possibly-raising statement
         self._loop_ends: dict = {}  # loop id -> list of (kind, State) for continue / break exits
+        self._alts: dict = {}  # gated constant returned by an inlined helper -> its alternatives ((extra path literals, value), ...)
+        self._try_depth: dict = {}  # try id -> inline depth of the frame the try statement belongs to
+        self._frame_envs: list = []  # environments of the calling frames while a helper is inlined
+        self._tail_ends: dict = {}  # loop id -> per-path states at the statements from which control falls off the end of the loop body
+        self._tail_stack: list = []  # (loop id, ids of tail-position leaf statements, ids of tail-position ifs without else)
 
     # ------------------------------------------------------------------ driver
     def run(self):
@@ -282,17 +296,34 @@ class SymEval:
 
     # ------------------------------------------------------------------ statements
     def block(self, stmts, st: State) -> State:
+        stmts = _rotate_primed_loops(stmts)
         for s in stmts:
             if st.dead:
                 break
             st = self.stmt(s, st)
+        if stmts and not st.dead and self._tail_stack and self._loops and self._tail_stack[-1][0] == self._loops[-1] and id(stmts[-1]) in self._tail_stack[-1][1]:
+            self._tail_end(st)
         return st
+
+    def _tail_end(self, st: State):
+        snap = st.copy()
+        snap.seq = len(self.effects)
+        self._tail_ends.setdefault(self._loops[-1], []).append(snap)
 
     def stmt(self, s, st: State) -> State:
         self._stmt = s
         if self._trys and may_raise_stmt(s):
+            depth = len(self._inline_stack)
             for tid in self._trys:
-                self._snapshots.setdefault(tid, []).append(dict(st.env))
+                d = self._try_depth.get(tid, depth)
+                if d >= depth or d >= len(self._frame_envs):
+                    self._snapshots.setdefault(tid, []).append(dict(st.env))
+                else:
+                    # the try statement belongs to a caller of the helper being inlined: its locals are as they were at the call, the instance
+                    # fields as the helper has left them so far
+                    snap = dict(self._frame_envs[d])
+                    snap.update({k: v for k, v in st.env.items() if k.startswith("self.")})
+                    self._snapshots.setdefault(tid, []).append(snap)
         if isinstance(s, ast.Expr):
             if not isinstance(s.value, ast.Constant):
                 self.expr(s.value, st)
@@ -421,6 +452,10 @@ class SymEval:
         """Normalise a term used as a condition: ite(c, K1, K2) with constant arms of different
         truthiness is c (or its negation); `not not c` is c."""
         while True:
+            if c[0] == "ite" and c in self._alts:
+                r = self._sel(c, bool)
+                if r is not None:
+                    return r
             if c[0] == "ite" and is_const(c[2]) and is_const(c[3]):
                 try:
                     a, b = bool(c[2][1]), bool(c[3][1])
@@ -443,6 +478,8 @@ class SymEval:
             return ("cmp", NEGATE[c[1]], c[2], c[3])
         if c[0] == "not":
             return c[1]
+        if c[0] == "sel":
+            return ("sel", c[1], frozenset(range(len(c[1]))) - c[2])
         if is_const(c):
             try:
                 return const(not c[1])
@@ -453,9 +490,13 @@ class SymEval:
     def if_(self, s, st: State) -> State:
         c = self.cond(self.expr(s.test, st))
         b = self.truth(c)
+        # an `if` without else in tail position of a loop body: its untaken side falls off the end of the body
+        tail_else = bool(not s.orelse and self._tail_stack and self._loops and self._tail_stack[-1][0] == self._loops[-1] and id(s) in self._tail_stack[-1][2])
         if b is True:
             return self.block(s.body, st)
         if b is False:
+            if tail_else:
+                self._tail_end(st)
             return self.block(s.orelse, st)
         s1 = st.copy()
         s1.assume(c, True)
@@ -463,6 +504,8 @@ class SymEval:
         s2.assume(c, False)
         s1 = self.block(s.body, s1)
         s2 = self.block(s.orelse, s2)
+        if tail_else and not s2.dead:
+            self._tail_end(s2)
         return self.merge(c, s1, s2, st.dnf)
 
     def merge(self, c, s1: State, s2: State, base_dnf) -> State:
@@ -554,6 +597,7 @@ class SymEval:
             st.env["self.*"] = ("in", lid)
         info["pre"] = pre.env
         self._loops.append(lid)
+        self._tail_stack.append((lid,) + _tail_positions(s.body))
         if isinstance(s, ast.While):
             c = self.expr(s.test, st)
             info["test"] = c
@@ -570,7 +614,9 @@ class SymEval:
         body_st.seq = len(self.effects)
         info["body_end_state"] = body_st
         info["ends"] = self._loop_ends.get(lid, [])
+        info["tail_ends"] = self._tail_ends.get(lid, [])
         self._loops.pop()
+        self._tail_stack.pop()
         out = State(dict(st.env), pre.dnf, None)
         for n in assigned:
             out.env[n] = ("loopout", lid, n)
@@ -615,6 +661,7 @@ class SymEval:
     def try_(self, s, st: State) -> State:
         tid = f"{self._lid_prefix}T{s.lineno}"
         pre = st.copy()
+        self._try_depth[tid] = len(self._inline_stack)
         self._trys.append(tid)
         body = self.block(s.body, st.copy())
         self._trys.pop()
@@ -681,7 +728,23 @@ class SymEval:
                 return None
         if c[0] == "gval":
             return bool(c[1].v)
+        if c[0] == "sel":
+            return False if not c[2] else (True if len(c[2]) == len(c[1]) else None)
         return None
+
+    def _sel(self, t, pred):
+        """Condition `pred(result)` over the alternatives recorded for the gated constant t (None if none are recorded)."""
+        alts = self._alts.get(t)
+        if alts is None:
+            return None
+        chosen = set()
+        for i, (_, v) in enumerate(alts):
+            try:
+                if pred(v[1]):
+                    chosen.add(i)
+            except Exception:
+                return None
+        return ("sel", alts, frozenset(chosen))
 
     def _locals_of(self, fi):
         cached = getattr(fi.node, "_sa_locals", None)
@@ -727,7 +790,10 @@ class SymEval:
             return const(e.value)
         if isinstance(e, ast.Name):
             if e.id in st.env:
-                return st.env[e.id]
+                v = st.env[e.id]
+                if v[0] == "ite":
+                    v = _ite_under(v, st.guards)  # alternatives the path condition has already excluded are dropped
+                return v
             if e.id in self.modenv:
                 return self.lift(self.modenv[e.id]) if not isinstance(self.modenv[e.id], Unknown) else ("extern", e.id)
             if e.id in ("True", "False", "None"):
@@ -764,6 +830,14 @@ class SymEval:
                 except Exception:
                     return top("unary raises")
             if sym == "not":
+                if v[0] == "ite" and v in self._alts:
+                    r = self._sel(v, lambda k: not k)
+                    if r is not None:
+                        return r
+                if v[0] == "sel":
+                    return self.negate(v)
+                if v[0] == "ite" and _const_leaves(v):
+                    return self._bool_tree(v, lambda k: not k)
                 if v[0] == "cmp":
                     return ("cmp", NEGATE[v[1]], v[2], v[3])
                 if v[0] == "not":
@@ -845,21 +919,7 @@ class SymEval:
                         parts.append(val)
                     else:
                         parts.append(("fmt", val, spec, v.conversion))
-            merged = []
-            for p_ in parts:  # adjacent literal pieces are one literal
-                if merged and is_const(p_) and is_const(merged[-1]) and isinstance(p_[1], str) and isinstance(merged[-1][1], str):
-                    merged[-1] = const(merged[-1][1] + p_[1])
-                else:
-                    merged.append(p_)
-            parts = merged
-            if all(is_const(p) for p in parts):
-                return const("".join(str(p[1]) for p in parts))
-            if all(is_const(p) or (p[0] == "fmt" and is_const(p[1]) and isinstance(p[2], str) and p[3] == -1) for p in parts):
-                try:
-                    return const("".join(str(p[1]) if is_const(p) else format(p[1][1], p[2]) for p in parts))
-                except Exception:
-                    pass
-            return ("fstr", tuple(parts))
+            return _mk_fstr(parts)
         if isinstance(e, ast.Call):
             return self.call(e, st)
         if isinstance(e, ast.Starred):
@@ -963,6 +1023,15 @@ class SymEval:
                 if is_const(x) and isinstance(x[1], str) and y[0] == "bin" and y[1] == "+" and is_const(y[2]) and isinstance(y[2][1], str):
                     if not x[1].startswith(y[2][1]) or (y[3][0] == "fstr" and y[3][1] and is_const(y[3][1][0]) and not x[1][len(y[2][1]):].startswith(str(y[3][1][0][1]))):
                         return const(sym == "!=")
+        if sym in _CMPFN:
+            # a comparison of a gated constant (a result code chosen on earlier tests) with a constant is a boolean combination of those tests
+            for x, y, left in ((a, b, True), (b, a, False)):
+                if x[0] == "ite" and is_const(y) and x in self._alts:
+                    r = self._sel(x, lambda k: (_CMPFN[sym](k, y[1]) if left else _CMPFN[sym](y[1], k)))
+                    if r is not None:
+                        return r
+                if x[0] == "ite" and is_const(y) and _const_leaves(x):
+                    return self._bool_tree(x, lambda k: (_CMPFN[sym](k, y[1]) if left else _CMPFN[sym](y[1], k)))
         if sym in ("in", "not in") and is_const(b) and isinstance(b[1], (tuple, list, set, frozenset)) and len(b[1]) == 1:
             return self.cmp("==" if sym == "in" else "!=", a, self.lift(next(iter(b[1]))))  # membership in a one-element constant
         if sym in ("in", "not in") and is_const(a) and b[0] == "gval":
@@ -974,6 +1043,34 @@ class SymEval:
         if sym in ("is", "is not", "==", "!=") and is_const(b) and b[1] is None and a[0] in ("tuple", "list", "dict", "gval", "nonnull", "self", "func", "class"):
             return const(sym in ("is not", "!="))
         return ("cmp", sym, a, b)
+
+    def _bool_tree(self, t, pred):
+        if is_const(t):
+            try:
+                return const(bool(pred(t[1])))
+            except Exception:
+                return const(False)
+        c, A, B = t[1], self._bool_tree(t[2], pred), self._bool_tree(t[3], pred)
+        if A == B:
+            return A
+        nc = self.negate(c)
+        if is_const(A) and is_const(B):
+            return c if A[1] else nc
+        if is_const(A):
+            return self._or(c, B) if A[1] else self._and(nc, B)
+        if is_const(B):
+            return self._or(nc, A) if B[1] else self._and(c, A)
+        return self._or(self._and(c, A), self._and(nc, B))
+
+    @staticmethod
+    def _and(a, b):
+        xs = (a[1] if a[0] == "and" else (a,)) + (b[1] if b[0] == "and" else (b,))
+        return ("and", tuple(xs))
+
+    @staticmethod
+    def _or(a, b):
+        xs = (a[1] if a[0] == "or" else (a,)) + (b[1] if b[0] == "or" else (b,))
+        return ("or", tuple(xs))
 
     def call(self, e: ast.Call, st: State):
         fn = e.func
@@ -1026,6 +1123,11 @@ class SymEval:
                 return self.lift(getattr(rv, f[2])(*[a[1] for a in args], **{k: v[1] for k, v in kwargs}))
             except Exception:
                 pass
+        if f[0] == "attr" and f[2] == "format" and is_const(recv) and isinstance(recv[1], str) and None not in [k for k, _ in kwargs] and not any(isinstance(a, ast.Starred) for a in e.args):
+            # a literal template formatted with str.format is the f-string with the same holes
+            parts = _format_call_parts(recv[1], args, kwargs)
+            if parts is not None:
+                return _mk_fstr(parts)
         if self.inline is not None and len(self._inline_stack) < 3:
             callee = self.inline(e, f, self.func)
             if callee is not None and all(callee is not fi for fi, _ in self._inline_stack) and callee is not self.func:
@@ -1048,6 +1150,153 @@ class SymEval:
         return t
 
 
+def _rotate_primed_loops(stmts):
+    """P; while T: B; P   (the same simple assignment P before the loop and as the last statement of its body, no continue in B, T reads
+    P's target)  is  while True: P; if not T: break; B  - the form with a single consume site per iteration that the loop rules follow."""
+    if len(stmts) < 2 or not any(isinstance(x, ast.While) for x in stmts):
+        return stmts
+    cached = getattr(stmts[0], "_sa_rotated_block", None)
+    if cached is not None and cached[0] is stmts:
+        return cached[1]
+    out, i, changed = [], 0, False
+    while i < len(stmts):
+        p_ = stmts[i]
+        w = stmts[i + 1] if i + 1 < len(stmts) else None
+        if (isinstance(p_, ast.Assign) and isinstance(w, ast.While) and not w.orelse and len(w.body) >= 2 and isinstance(w.body[-1], ast.Assign)
+                and ast.dump(p_) == ast.dump(w.body[-1]) and len(p_.targets) == 1 and isinstance(p_.targets[0], ast.Name)
+                and any(isinstance(n, ast.Name) and n.id == p_.targets[0].id for n in ast.walk(w.test))
+                and not _has(w.body[:-1], (ast.Continue,)) and p_.targets[0].id not in _assigned_names(w.body[:-1])
+                and not (isinstance(w.test, ast.Constant))):
+            brk = ast.If(test=ast.UnaryOp(op=ast.Not(), operand=w.test), body=[ast.Break()], orelse=[])
+            ast.copy_location(brk, w.test)
+            ast.copy_location(brk.test, w.test)
+            ast.copy_location(brk.body[0], w.test)
+            nw = ast.While(test=ast.Constant(value=True), body=[w.body[-1], brk] + list(w.body[:-1]), orelse=[])
+            ast.copy_location(nw, w)
+            ast.copy_location(nw.test, w.test)
+            ast.fix_missing_locations(nw)
+            nw._sa_from_while = w
+            out.append(nw)
+            i += 2
+            changed = True
+            continue
+        out.append(p_)
+        i += 1
+    res = out if changed else stmts
+    try:
+        stmts[0]._sa_rotated_block = (stmts, res)
+    except Exception:
+        pass
+    return res
+
+
+def _tail_positions(body):
+    """(ids of the simple statements after which control falls off the end of `body`, ids of the ifs in that position that have no else)."""
+    leaves, noelse = set(), set()
+
+    def rec(stmts):
+        if not stmts:
+            return
+        last = stmts[-1]
+        if isinstance(last, ast.If):
+            rec(last.body)
+            if last.orelse:
+                rec(last.orelse)
+            else:
+                noelse.add(id(last))
+        elif isinstance(last, ast.Try) and not last.finalbody:
+            rec(last.orelse if last.orelse else last.body)
+            for h in last.handlers:
+                rec(h.body)
+        else:
+            leaves.add(id(last))
+
+    rec(body)
+    return leaves, noelse
+
+
+def _const_leaves(t, depth=0) -> bool:
+    if is_const(t):
+        return True
+    return t[0] == "ite" and depth < 12 and _const_leaves(t[2], depth + 1) and _const_leaves(t[3], depth + 1)
+
+
+def _ite_under(t, guards):
+    """Drop the alternatives of a gated term that the literals of the path condition exclude."""
+    while t[0] == "ite":
+        c = t[1]
+        pos = (c, True) in guards
+        neg = (c, False) in guards or neg_lit((c, True)) in guards
+        if pos:
+            t = t[2]
+        elif neg:
+            t = t[3]
+        else:
+            a, b = _ite_under(t[2], guards), _ite_under(t[3], guards)
+            return t if (a is t[2] and b is t[3]) else (a if a == b else ("ite", c, a, b))
+    return t
+
+
+def _mk_fstr(parts):
+    merged = []
+    for p_ in parts:  # adjacent literal pieces are one literal
+        if merged and is_const(p_) and is_const(merged[-1]) and isinstance(p_[1], str) and isinstance(merged[-1][1], str):
+            merged[-1] = const(merged[-1][1] + p_[1])
+        else:
+            merged.append(p_)
+    parts = merged
+    if all(is_const(p) for p in parts):
+        return const("".join(str(p[1]) for p in parts))
+    if all(is_const(p) or (p[0] == "fmt" and is_const(p[1]) and isinstance(p[2], str) and p[3] == -1) for p in parts):
+        try:
+            return const("".join(str(p[1]) if is_const(p) else format(p[1][1], p[2]) for p in parts))
+        except Exception:
+            pass
+    return ("fstr", tuple(parts))
+
+
+def _format_call_parts(template: str, args, kwargs):
+    """'lit{}lit{0!r}{name:spec}'.format(...) as the parts of the equivalent f-string; None for field forms beyond plain positions and names."""
+    import string
+
+    parts, auto = [], 0
+    kw = dict(kwargs)
+    try:
+        fields = list(string.Formatter().parse(template))
+    except ValueError:
+        return None
+    manual = False
+    for lit, name, spec, conv in fields:
+        if lit:
+            parts.append(const(lit))
+        if name is None:
+            continue
+        if "{" in (spec or ""):
+            return None
+        if name == "":
+            if manual or auto >= len(args):
+                return None
+            val = args[auto]
+            auto += 1
+        elif name.isdigit():
+            if auto or int(name) >= len(args):
+                return None
+            manual = True
+            val = args[int(name)]
+        elif name.isidentifier() and name in kw:
+            val = kw[name]
+        else:
+            return None
+        cv = -1 if conv is None else ord(conv)
+        if val[0] == "fstr" and not spec and cv in (-1, ord("s")):
+            parts.extend(val[1])
+        elif is_const(val) and isinstance(val[1], str) and not spec and cv in (-1, ord("s")):
+            parts.append(val)
+        else:
+            parts.append(("fmt", val, spec or "", cv))
+    return parts
+
+
 def _same_value(a, b) -> bool:
     """Two terms denoting the same object (call terms compared by their unique ids)."""
     return a == b
@@ -1063,8 +1312,9 @@ def _build_gated(rets, base_len):
     # choose a literal on which the alternatives differ
     for lit in rets[0][0][base_len:]:
         c, pol = lit
+        nl = neg_lit(lit)
         pos = [(cj, v) for cj, v in rets if (c, pol) in cj]
-        neg = [(cj, v) for cj, v in rets if (c, not pol) in cj]
+        neg = [(cj, v) for cj, v in rets if (c, not pol) in cj or nl in cj]
         if pos and neg and len(pos) + len(neg) == len(rets):
             a, b = _build_gated(pos, base_len), _build_gated(neg, base_len)
             if a is None or b is None:
@@ -1136,6 +1386,7 @@ def _inline_call_impl(self, callee, f, args, kwargs, st):
     # loop / try ids of an inlined body are prefixed by the callee's name; a second inlining of the same helper gets its own ids
     self._lid_prefix = saved[3] + callee.name + (f"#{cnt[callee.qualname]}" if cnt[callee.qualname] > 1 else "") + "."
     rets = []
+    self._frame_envs.append(st.env)
     self._inline_stack.append((callee, rets))
     sub = State(env, st.dnf, None)
     base_len = min((len(c) for c in st.dnf), default=0)
@@ -1143,6 +1394,7 @@ def _inline_call_impl(self, callee, f, args, kwargs, st):
         sub = self.block(callee.node.body, sub)
     finally:
         self._inline_stack.pop()
+        self._frame_envs.pop()
         self.func, self.modenv, self.selfname, self._lid_prefix = saved
     alts = [(dnf, v, env2) for dnf, v, env2 in rets]
     if not sub.dead:
@@ -1157,6 +1409,11 @@ def _inline_call_impl(self, callee, f, args, kwargs, st):
     res = _build_gated(flat, base_len) if len({v for _, v in flat}) > 1 else flat[0][1]
     if res is None:
         res = ("phi", tuple(v for _, v in flat))
+    elif res[0] == "ite" and all(is_const(v) for _, v in flat):
+        # remember each alternative with its whole path condition (a test of the result then assumes all of it, not just the literal the
+        # gated term happens to split on)
+        common = set(st.guards)
+        self._alts[res] = tuple((tuple(l for l in conj if l not in common), v) for conj, v in flat)
     # instance fields possibly changed by the helper
     if is_method:
         for k in set().union(*[set(e2) for _, _, e2 in alts]):
@@ -1322,6 +1579,8 @@ def show(t, depth=0) -> str:
         return t[1]
     if k == "func" or k == "class":
         return t[1]
+    if k == "sel":
+        return "<" + " | ".join(" & ".join(show(c) if p else "¬" + show(c) for c, p in conj) or "true" for i, (conj, _) in enumerate(t[1]) if i in t[2]) + ">"
     if k == "ite":
         return f"({show(t[2])} if {show(t[1])} else {show(t[3])})"
     if k == "tuple":
